@@ -3,7 +3,9 @@
 Proofs in coq/Props/C19.v; correspondence of the extracted model with ptt/fav driven through
 NewFavRaw/Add*/Save/Load; direct predicates on the implementation's own outputs: round trip against the
 tree that was in memory, file bytes against a reference writer written here, counter consistency,
-"never crashes / hangs", and .fav on disk after a process death at every crash point of a save."""
+"never crashes / hangs", .fav on disk after a process death at every crash point of a save, trees near the
+limits (MAX_FAV entries, files up to 57350 bytes), and histories of saves of several users in one process
+in which some saves are refused half-way (every later .fav must be exactly its own image)."""
 import os, shutil, sys, tempfile
 from functools import lru_cache
 sys.path.insert(0, os.path.join(os.path.dirname(os.path.abspath(__file__)), "..", "lib"))
@@ -308,6 +310,132 @@ def parse_sweep(res):
     return pre_old, pre_new, K, states
 
 
+# ---------------------------------------------------------------- trees near the limits (MAX_FAV entries, files of 14 KiB - 56 KiB)
+def grid_script(nroot_folders, sub_folders, sub_boards, sub_lines=0, root_boards=0, root_lines=0, extra=0):
+    """root: nroot_folders folders (+ boards, lines); every root folder: sub_folders folders, sub_boards boards, sub_lines lines;
+    extra: further AddLine calls on the root afterwards (refused once Root.FavNum = MAX_FAV)"""
+    ops = ["3 0 %d %d" % (70 + i % 20, 48 + i % 10) for i in range(nroot_folders)]
+    ops += ["1 0 %d" % (i + 1) for i in range(root_boards)] + ["2 0"] * root_lines
+    for i in range(nroot_folders):
+        ops += ["3 1 %d %d" % (i, 97 + j % 26) for j in range(sub_folders)]
+        ops += ["1 1 %d %d" % (i, j + 1) for j in range(sub_boards)] + ["2 1 %d" % i] * sub_lines
+    return "|".join(ops + ["2 0"] * extra)
+
+
+def random_big_forest(rng, n, d):
+    """about n entries (never more), every level within what the API accepts (<= 100 distinct boards, 64 lines, 64 folders)"""
+    if n <= 0:
+        return ()
+    w = min(n, rng.choice([20, 60, 150, 228]))
+    nf = min(64, rng.randrange(1, w // 2 + 2)) if d >= 2 else 0
+    nl = min(64, rng.randrange(0, w - nf + 1) // 3)
+    nb = min(100, w - nf - nl)
+    rest = n - (nf + nl + nb)
+    kinds = ["B"] * nb + ["L"] * nl + ["F"] * nf
+    rng.shuffle(kinds)
+    out = []
+    left = nf
+    for k in kinds:
+        if k != "F":
+            out.append(k)
+            continue
+        share = rest if left == 1 else min(rest, rng.randrange(0, 2 * rest // left + 1))
+        sub = random_big_forest(rng, share, d - 1)
+        rest -= forest_size(sub)
+        left -= 1
+        out.append(("F", sub))
+    return tuple(out)
+
+
+def forest_size(forest):
+    return sum(1 if not isinstance(it, tuple) else 1 + forest_size(it[1]) for it in forest)
+
+
+# ---------------------------------------------------------------- several saves in one process (op 8)
+ESIZE = {"B": 14, "L": 3}
+
+
+def level_size(forest):
+    return 4 + sum(52 if isinstance(it, tuple) else ESIZE[it] for it in forest) + sum(level_size(it[1]) for it in forest if isinstance(it, tuple))
+
+
+def entry_offset(forest, path, idx, base=2):
+    """byte offset, in the image of a tree with no invalid entry, of entry idx of the folder at path"""
+    if not path:
+        return base + 4 + sum(52 if isinstance(it, tuple) else ESIZE[it] for it in forest[:idx])
+    off = base + 4 + sum(52 if isinstance(it, tuple) else ESIZE[it] for it in forest)
+    off += sum(level_size(it[1]) for it in forest[:path[0]] if isinstance(it, tuple))
+    return entry_offset(forest[path[0]][1], path[1:], idx, off)
+
+
+def leaf_positions(forest, path=()):
+    """(path, idx, kind) of every board / line entry"""
+    out = []
+    for i, it in enumerate(forest):
+        if isinstance(it, tuple):
+            out += leaf_positions(it[1], path + (i,))
+        else:
+            out.append((list(path), i, it))
+    return out
+
+
+def seq_step(u, kind, forest, rng=None, pos=None, k=0, decorate=0.0):
+    """one step of an op-8 case: header group(s) + script"""
+    e = 9
+    path, idx = [], 0
+    if kind == 1:
+        path, idx, what = pos
+        k = entry_offset(forest, path, idx) + 2                 # everything before the entry, its type and attr bytes
+        e = 4 if what == "B" else 5                             # ErrInvalidFavBoard / ErrInvalidFavLine
+    hdr = "81 %d %d %d %d %d %d %s" % (u, kind, k, e, idx, len(path), " ".join(str(x) for x in path))
+    sc = script_of(forest, rng, decorate)
+    return hdr.strip() + ("|" + sc if sc else "")
+
+
+def parse_seq(res):
+    """result of op 8 -> ([(pre, status, code, ret, tmp, [fav of every user])], [load of every user])"""
+    t = res.split()
+    n = int(t[1])
+    pos = 2
+
+    def rd_file(pos):
+        ln = int(t[pos])
+        if ln < 0:
+            return (None if ln == -1 else "several"), pos + 1
+        return [int(x) for x in t[pos + 1:pos + 1 + ln]], pos + 1 + ln
+    steps = []
+    for _ in range(n):
+        m = int(t[pos]); pre, end = parse_fav(t, pos + 1); assert end == pos + 1 + m; pos = end
+        st = int(t[pos])
+        code, ret = None, None
+        if st == 0:
+            m = int(t[pos + 1]); ret, end = parse_fav(t, pos + 2); assert end == pos + 2 + m; pos = end
+        else:
+            code = int(t[pos + 1]); pos += 2
+        tmp, pos = rd_file(pos)
+        favs = []
+        for _ in range(4):
+            f, pos = rd_file(pos)
+            favs.append(f)
+        steps.append((pre, st, code, ret, tmp, favs))
+    loads = []
+    for _ in range(4):
+        ls = int(t[pos])
+        if ls == 0:
+            m = int(t[pos + 1])
+            if m < 0:
+                loads.append(("nil",)); pos += 2
+            else:
+                tr, end = parse_fav(t, pos + 2); assert end == pos + 2 + m
+                loads.append(("tree", tr)); pos = end
+        elif ls == 3:
+            loads.append(("error", int(t[pos + 1]))); pos += 2
+        else:
+            loads.append(("crash" if ls == 1 else "hang",)); pos += 1
+    assert pos == len(t), "trailing tokens"
+    return steps, loads
+
+
 # ---------------------------------------------------------------- the check
 def main():
     c = vf.Check("C19")
@@ -323,7 +451,11 @@ def main():
     finally:
         shutil.rmtree(scratch, ignore_errors=True)
     c.finish(rule="trees: every forest of <= N entries and depth <= 3 (N = 6 quick and thorough) + PRNG(seed) larger forests with random titles, "
-                  "attrs (FAVH_FAV dropped here and there) and board payloads, through NewFavRaw/Add*/Save/Load; "
+                  "attrs (FAVH_FAV dropped here and there) and board payloads, and trees near the limits (MAX_FAV = 1024 entries: 16 x 62 and 64 x 15 boards in folders, 1024 folders = the largest .fav of 57350 bytes, "
+                  "250 folders, wide roots, PRNG(seed) forests of 700-1023 entries; levels of 255 / 256 / 257 / 800 / 1024 boards through the -tags docker build), through NewFavRaw/Add*/Save/Load; "
+                  "histories: several Saves of several users in ONE process (GOMAXPROCS 1, collector off), a Save refused at every board / line entry of every forest of <= 3 entries (payload of the other kind), "
+                  "a write of the temporary file failing at byte k (RLIMIT_FSIZE), a missing home, each followed by ordinary Saves of the same and other users + PRNG(seed) histories of 3-8 steps: "
+                  "after every step .fav of every user must be exactly the reference image of that user's last ordinary Save, Load at the end returns that tree; "
                   "loader: every byte string of length <= L over {00,01,02,03,7F,80,FF} after the version word and as the whole file + mutated valid images; "
                   "crash: a child process dies at EVERY crash point of a save, for every forest of <= 3 entries and random larger ones, over an existing .fav and "
                   "over every other initial state of the home (no .fav, .fav4 lying around or being converted by Load, .fav older / same mtime / newer / same content, stale temporary file); "
@@ -334,20 +466,52 @@ def main():
                           "the mtime comparison of Save is driven through the exported MTime field (newer / equal / older than the file)",
                           "the .fav4 files of the conversion sweep are written by the check (boards and lines only: fav4ReadFavrec rejects every .fav4 that contains a folder)",
                           "a stale temporary file is planted under a fixed name .fav.tmp.stale-left-by-a-crash; a collision with the 22 random characters of the save's own temporary name is covered by the theorem (any directory) only",
+                          "a refused Save is provoked by giving one board / line entry the payload of the other kind (FavType.Fp is an exported interface field), a failing write by RLIMIT_FSIZE with SIGXFSZ ignored, "
+                          "a failing creation of the temporary file by moving the home away (the driver runs as root: directory permissions do not stop it); a write error other than EFBIG is not provoked",
+                          "process-wide state is observed through its effect on later Saves in the same process under GOMAXPROCS(1) with the collector off (sync.Pool then returns what was put back); "
+                          "the model has no such state by construction (C19_save_history), so any carried-over byte shows as a difference to the reference image",
+                          "boards of one level are limited to MAX_BOARD = 100 distinct ids in the default build, which is the build the model mirrors: the trees near MAX_FAV compared with the model get their size from folders; "
+                          "levels wider than 228 entries (up to 1024 boards in the root) are driven through the -tags docker build (MAX_BOARD = 20000) with the direct predicates only (round trip, reference writer), no model",
                           "encoding/binary little-endian fixed-size reads and writes are re-specified in Model/C19.v and exercised, not verified"])
 
 
 def run(c, rng, thorough, impl, model, scratch):
     env = {"VERIF_C19_DIR": scratch}
+    import time as _time
+    t_last = [_time.time()]
+
+    def lap(what):
+        if os.environ.get("VERIF_C19_TIMING"):
+            print("C19 timing: %-40s %.1fs" % (what, _time.time() - t_last[0]))
+        t_last[0] = _time.time()
+
+    def par_impl(lines, npar=4):
+        """child-process sweeps of different cases are independent: parallel slices, each in its own scratch home"""
+        from concurrent.futures import ThreadPoolExecutor
+
+        def slice_run(j):
+            d = os.path.join(scratch, "par%d" % j)
+            os.makedirs(d, exist_ok=True)
+            return vf.run_impl(impl, "C19", lines[j::npar], env={"VERIF_C19_DIR": d}, deadline_ms=120000)
+        with ThreadPoolExecutor(npar) as ex:
+            parts = list(ex.map(slice_run, range(npar)))
+        out = [None] * len(lines)
+        for j in range(npar):
+            out[j::npar] = parts[j]
+        return out
+
+    last_model = [None]
 
     def both(lines, label, use_model=True):
         io = vf.run_impl(impl, "C19", lines, env=env, deadline_ms=120000)
+        last_model[0] = None
         if model and use_model:
             mo = vf.run_model(model, lines)
             vf.correspond(c, label, lines, io, mo)
+            last_model[0] = mo          # the lines a correct implementation prints: "expected" of the replay files
         return io
 
-    def judge_saved(line, res, label, must_write=True, old_image=None):
+    def judge_saved(line, res, label, must_write=True, old_image=None, mline=None):
         """direct predicates on one Save result; returns the parsed result"""
         st, code, nerr, pre, fbytes, ret = parse_saved(res)
         if st in (1, 2):
@@ -357,8 +521,10 @@ def run(c, rng, thorough, impl, model, scratch):
         if st == 9:
             raise SystemExit("C19: generator produced a bad case: " + line)
         if st == 3:
-            c.violation("save-error", "%s: Save of a tree built by NewFavRaw/Add* fails with error %s (%d entries in memory)" % (label, code, size_of(pre)),
-                        {"cases": [line], "got": res[:300]})
+            want = expected_after_save(pre)
+            c.violation("save-error", "%s: Save of a tree built by NewFavRaw/Add* fails with error %s (%d entries in memory, its .fav image has %d bytes; .fav on disk afterwards: %s)"
+                        % (label, code, size_of(pre), 2 + len(ref_write(want)), "absent" if fbytes is None else "%d bytes" % len(fbytes)),
+                        dict({"cases": [line], "got": res[:300], "expected_fav": toks(VERSION + ref_write(want))[:300]}, **({"expected": mline} if mline else {})))
             return None
         if not must_write:
             return st, code, nerr, pre, fbytes, ret
@@ -387,6 +553,7 @@ def run(c, rng, thorough, impl, model, scratch):
     c.cov["exhaustive_parts"].append("all %d forests of <= %d entries (board / line / folder) with nesting depth <= 3" % (len(shapes), N))
     c.sample({"op": "Save/Load", "script": l1[100], "result": o1[100][:200]})
 
+    lap("1 enumerated forests")
     # ---------------------------------------------------------------- 2. random larger trees, decorated
     l2 = []
     for _ in range(3000 if thorough else 400):
@@ -406,15 +573,56 @@ def run(c, rng, thorough, impl, model, scratch):
     for i in range(40):
         big += ["2 1 %d" % i] * 30
     l2.append("1|" + "|".join(big))
-    o2 = both(l2, "Save/Load(random and wide forests)")
+    # trees near the limits: MAX_FAV entries with many folders, files of 14 KiB - 56 KiB (a folder costs 52 + 4 bytes, a
+    # board 14): they are legal favourites and must survive save/load like every small tree
+    nbig0 = len(l2)
+    for g in [dict(nroot_folders=16, sub_folders=0, sub_boards=62),                       # 1008 entries, 14790 bytes
+              dict(nroot_folders=64, sub_folders=0, sub_boards=15),                       # 1024 entries, 17030 bytes
+              dict(nroot_folders=64, sub_folders=15, sub_boards=0),                       # 1024 folders: the largest .fav, 57350 bytes
+              dict(nroot_folders=64, sub_folders=3, sub_boards=12),                       # 256 folders + 768 boards
+              dict(nroot_folders=50, sub_folders=4, sub_boards=0),                        # 250 folders only: 14006 bytes
+              dict(nroot_folders=20, sub_folders=0, sub_boards=42, root_boards=100, root_lines=64),   # 1024 entries, wide root
+              dict(nroot_folders=10, sub_folders=0, sub_boards=91, root_boards=100),      # mostly boards: 1020 entries, 14886 bytes
+              dict(nroot_folders=64, sub_folders=0, sub_boards=13, sub_lines=2, extra=5)]:  # MAX_FAV reached, 5 calls refused
+        l2.append("1|" + grid_script(**g))
+    for _ in range(40 if thorough else 3):
+        l2.append("1|" + script_of(random_big_forest(rng, rng.choice([700, 900, 1000, 1023]), rng.choice([2, 3, 4])), rng, decorate=rng.choice([0.0, 0.02])))
+    nbig1 = len(l2)
+    o2 = both(l2, "Save/Load(random and wide forests, trees near MAX_FAV)")
+    # (sizes by the reference writer from the tree that was in memory: independent of what the code wrote)
+    bigsizes = sorted(2 + len(ref_write(expected_after_save(parse_saved(r)[3]))) for r in o2[nbig0:nbig1] if r.split()[0] in ("0", "3"))
+    c.cov["distribution"]["bytes of .fav of the trees near the limits"] = bigsizes
+    if not bigsizes or bigsizes[-1] < 50000 or len([b for b in bigsizes if b > 14342]) < 6:
+        raise SystemExit("C19: the generator of large trees no longer produces large files: %r" % bigsizes)
     c.count(len(l2), "save/load random forests")
-    for line, res in zip(l2, o2):
-        r = judge_saved(line, res, "random forest")
+    for i2, (line, res) in enumerate(zip(l2, o2)):
+        r = judge_saved(line, res, "tree near the limits (MAX_FAV entries, many folders)" if nbig0 <= i2 < nbig1 else "random forest",
+                        mline=last_model[0][i2] if last_model[0] else None)
         if r:
             c.nontrivial(("tree", tuple(r[4])))
             c.count(0, None)
     c.sample({"op": "Save/Load", "script": l2[3][:300], "result": o2[3][:200]})
 
+    # the same through the -tags docker build (MAX_BOARD = 20000: what production runs), where ONE level can hold hundreds of
+    # boards: levels wider than 228 entries, 1024 boards in the root (14342 bytes), the 255 / 256 / 257 boundary of a level.
+    # No model here (Model/C19.v takes MAX_BOARD from the default build): only the direct predicates.
+    impl_docker = vf.build_impl(tags="verif docker", name="implrun_docker")
+    l2d = []
+    for nroot, nfold, per, nlines in [(1024, 0, 0, 0), (1030, 0, 0, 0), (800, 20, 10, 0), (255, 3, 255, 0), (256, 3, 255, 0), (257, 2, 256, 64),
+                                      (300, 64, 9, 64), (1, 1, 1022, 0), (500, 1, 500, 20)]:
+        ops = ["1 0 %d" % (20000 - i) for i in range(nroot)] + ["3 0 %d" % (65 + i % 26) for i in range(nfold)] + ["2 0"] * nlines
+        rng.shuffle(ops)
+        fpos = [i for i, o in enumerate(ops) if o.startswith("3 ")]
+        for j, p_ in enumerate(fpos):
+            ops += ["1 1 %d %d" % (p_, 1 + j + 7 * b) for b in range(per)]
+        l2d.append("1|" + "|".join(ops))
+    o2d = vf.run_impl(impl_docker, "C19", l2d, env=env, deadline_ms=120000)
+    c.count(len(l2d), "save/load wide levels (-tags docker build, no model)")
+    for line, res in zip(l2d, o2d):
+        r = judge_saved(line, res, "wide level (-tags docker build: MAX_BOARD = 20000)")
+        if r:
+            c.nontrivial(("tree", tuple(r[4])))
+    lap("2 random/wide/big forests")
     # ---------------------------------------------------------------- 3. the mtime gate of Save
     l3 = []
     small = [f for n in range(1, 4) for f in forests(n, 3)]
@@ -441,6 +649,7 @@ def run(c, rng, thorough, impl, model, scratch):
             if fb != ob_:
                 c.violation("gate-writes", "Save with MTime %+d relative to the file changed .fav" % rel, {"cases": [line], "expected": toks(ob_ or []), "got": toks(fb or [])})
 
+    lap("3 mtime gate")
     # ---------------------------------------------------------------- 4. arbitrary bytes as file content
     ALPHA = [0x00, 0x01, 0x02, 0x03, 0x7F, 0x80, 0xFF]
     L = 6 if thorough else 5
@@ -502,6 +711,7 @@ def run(c, rng, thorough, impl, model, scratch):
         if res.split()[0] in ("1", "2"):
             c.violation("fav4-crash", "fav.Load crashes converting a .fav4 of %d bytes: %s" % (len(s), toks(s)), {"cases": [line], "got": res})
 
+    lap("4 loader")
     # ---------------------------------------------------------------- 5. process death at every crash point of a save
     pairs = []
     base_old = script_of(forests(3, 3)[20])
@@ -511,7 +721,9 @@ def run(c, rng, thorough, impl, model, scratch):
         pairs.append((script_of(random_forest(rng, rng.choice([2, 6]), 3), rng, 0.2), script_of(random_forest(rng, rng.choice([5, 9, 14]), 4), rng, 0.2)))
     pairs.append(("", script_of(forests(2, 3)[5])))                     # old image: the empty tree
     l5 = ["|".join(x for x in ("4", o, "99", n) if x) for o, n in pairs]
-    o5 = both(l5, "crash sweep of Save")
+    o5 = par_impl(l5)
+    if model:
+        vf.correspond(c, "crash sweep of Save", l5, o5, vf.run_model(model, l5))
     npoints = 0
     for line, res in zip(l5, o5):
         t = res.split()
@@ -546,6 +758,7 @@ def run(c, rng, thorough, impl, model, scratch):
     c.cov["exhaustive_parts"].append("every crash point (each types.BinaryWrite + before the rename) of every save in the sweep: %d child processes" % (npoints + len(l5)))
     c.sample({"op": "crash sweep", "case": l5[30], "result": o5[30][:120]})
 
+    lap("5 crash sweep")
     # ---------------------------------------------------------------- 6. the same sweep over EVERY initial state of the home directory
     # no .fav (first save of a user) / no .fav but a .fav4 (lying around, or being converted: the save inside fav.Load) /
     # an existing .fav (older, same mtime, newer; same content) / a temporary file left by an earlier crash.
@@ -583,18 +796,7 @@ def run(c, rng, thorough, impl, model, scratch):
                        script_of(random_forest(rng, rng.choice([2, 6]), 3), rng, 0.2), script_of(random_forest(rng, rng.choice([5, 9]), 4), rng, 0.2)))
     l7 = [sweep_line(*cs[1:]) for cs in cases7]
     t7 = __import__("time").time()
-    # the children of different cases are independent: run the sweep in parallel slices, each in its own scratch home
-    NPAR = 4
-    from concurrent.futures import ThreadPoolExecutor
-    def slice_run(j):
-        d = os.path.join(scratch, "par%d" % j)
-        os.makedirs(d, exist_ok=True)
-        return vf.run_impl(impl, "C19", l7[j::NPAR], env={"VERIF_C19_DIR": d}, deadline_ms=120000)
-    with ThreadPoolExecutor(NPAR) as ex:
-        parts = list(ex.map(slice_run, range(NPAR)))
-    o7 = [None] * len(l7)
-    for j in range(NPAR):
-        o7[j::NPAR] = parts[j]
+    o7 = par_impl(l7)
     m7 = vf.run_model(model, l7) if model else None
     if model:
         vf.correspond(c, "crash sweep over every initial directory state (all files of the home, Load afterwards)", l7, o7, m7)
@@ -659,6 +861,104 @@ def run(c, rng, thorough, impl, model, scratch):
                                      "and of saves over an existing .fav (older / same mtime / newer / same content), with and without a stale temporary file and a .fav4: %d child processes"
                                      % (len(small3), len(shapes_bl), npoints7))
     c.sample({"op": "crash sweep, first save", "case": l7[5], "result": o7[5][:160]})
+
+    lap("6 directory-state sweep")
+    # ---------------------------------------------------------------- 7. several saves of several users in ONE process
+    # A Save that is refused after the serialisation has started (an entry whose payload does not match its type), whose
+    # write fails after k bytes (RLIMIT_FSIZE) or whose temporary file cannot be created (home missing) must have no
+    # influence on any later Save of anybody: each later .fav is exactly the image of its own tree.
+    G1, G2 = ("B", "L"), ("L", ("F", ("B",)), "B")
+    l8 = []
+    demo8 = ("B", "B")
+    l8.append("8|" + "|".join([seq_step(0, 1, demo8, pos=([], 1, "B")), seq_step(1, 0, G1)]))       # the shortest: reported first
+    for f in [f for n in range(1, 4) for f in forests(n, 3)]:
+        for pos in leaf_positions(f):
+            l8.append("8|" + "|".join([seq_step(0, 1, f, pos=pos), seq_step(1, 0, G1), seq_step(0, 0, G2), seq_step(2, 0, f)]))
+    for f in [f for n in range(0, 3) for f in forests(n, 3)]:
+        for k in sorted({0, 1, 2, 5, level_size(f) // 2 + 1, level_size(f) + 1}):                   # the write that passes byte k fails
+            l8.append("8|" + "|".join([seq_step(0, 0, G2), seq_step(0, 3, f, k=k), seq_step(1, 0, G1), seq_step(0, 0, f)]))
+        l8.append("8|" + "|".join([seq_step(3, 2, f), seq_step(3, 0, f), seq_step(2, 2, G1), seq_step(1, 0, G2)]))
+    for _ in range(1500 if thorough else 150):
+        steps, refused = [], False
+        for i in range(rng.choice([3, 4, 6, 8])):
+            f = random_forest(rng, rng.choice([1, 3, 6, 12]), 3)
+            kind = rng.choice([0, 0, 0, 1, 1, 3, 2]) if (refused or i > 0) else rng.choice([1, 3])
+            u = rng.randrange(4)
+            if kind == 1 and not leaf_positions(f):
+                kind = 3
+            if kind == 0:
+                steps.append(seq_step(u, 0, f, rng, decorate=rng.choice([0.0, 0.0, 0.3])))
+            elif kind == 1:
+                steps.append(seq_step(u, 1, f, rng, pos=rng.choice(leaf_positions(f))))
+            elif kind == 3:
+                steps.append(seq_step(u, 3, f, rng, k=rng.randrange(0, level_size(f) + 2)))
+            else:
+                steps.append(seq_step(u, 2, f, rng))
+            refused = refused or kind != 0
+        l8.append("8|" + "|".join(steps))
+    o8 = both(l8, "several saves of several users in one process, some refused half-way")
+    c.count(len(l8), "histories of saves in one process (refused / failing saves in between)")
+    nsteps8 = {"ordinary": 0, "payload mismatch": 0, "failing write": 0, "home missing": 0}
+    m8 = last_model[0]
+    for i8, (line, res) in enumerate(zip(l8, o8)):
+        st0 = res.split()[0]
+        rp = {"cases": [line]}
+        if m8:
+            rp["expected"] = m8[i8]          # the line an implementation without carried-over state prints (the model's)
+        if st0 in ("1", "2"):
+            c.violation("save-crash" if st0 == "1" else "save-hang", "a history of saves in one process: Save/Load %s" % ("panics" if st0 == "1" else "hangs"), dict(rp, got=res[:300]))
+            continue
+        if st0 != "0":
+            raise SystemExit("C19: generator produced a bad history: " + line[:300] + " -> " + res[:100])
+        hdrs = [[int(x) for x in g.split()[1:]] for g in line.split("|") if g.split()[0] == "81"]
+        steps, loads = parse_seq(res)
+        cur = [None] * 4            # reference image of every user's .fav
+        tree = [None] * 4
+        last_refused = None
+        ok_hist = True
+        for i, (hdr, (pre, st, code, ret, tmp, favs)) in enumerate(zip(hdrs, steps)):
+            u, kind = hdr[0], hdr[1]
+            nsteps8[("ordinary", "payload mismatch", "home missing", "failing write")[kind]] += 1
+            what = "step %d (user %d, %s)" % (i + 1, u, ("ordinary Save", "Save refused: payload mismatch", "Save fails: home missing", "Save fails: write error")[kind])
+            after = "" if last_refused is None else " after the refused / failed Save of step %d" % (last_refused + 1)
+            if kind != 0:
+                if st == 0:
+                    ok_hist = False       # the injection did not make Save fail: the correspondence reports it, nothing to judge here
+                    break
+                last_refused = i
+            else:
+                if st != 0:
+                    c.violation("seq-save-error", "%s%s fails with error %s" % (what, after, code), dict(rp, step=i + 1, got="error %s" % code))
+                    ok_hist = False
+                    break
+                want = expected_after_save(pre)
+                cur[u], tree[u] = VERSION + ref_write(want), want
+                if ret != want:
+                    c.violation("seq-roundtrip", "%s%s: the tree returned by Save/Load differs from the valid entries of the tree in memory" % (what, after),
+                                dict(rp, step=i + 1, expected_tree=repr(want)[:600], got=repr(ret)[:600]))
+            for v in range(4):
+                if favs[v] != cur[v]:
+                    if v == u and kind == 0:
+                        c.violation("seq-format", "%s%s: .fav is not the image of the saved tree (%s bytes instead of %d)"
+                                    % (what, after, "no" if favs[v] is None else len(favs[v]), len(cur[v])),
+                                    dict(rp, step=i + 1, expected_fav=showf(cur[v]), got=showf(favs[v])))
+                    else:
+                        c.violation("seq-frame", "%s changed .fav of user %d" % (what, v), dict(rp, step=i + 1, expected_fav=showf(cur[v]), got=showf(favs[v])))
+                    ok_hist = False
+            if not ok_hist:
+                break
+        if ok_hist:
+            for v in range(4):
+                wl = ("nil",) if tree[v] is None else ("tree", tree[v])
+                if loads[v] != wl:
+                    c.violation("seq-load", "after a history of saves in one process fav.Load of user %d does not return the tree of its last Save" % v,
+                                dict(rp, expected_load=repr(wl)[:600], got=repr(loads[v])[:600]))
+        c.nontrivial(("seq", line))
+    c.cov["distribution"]["steps of the histories"] = nsteps8
+    c.cov["exhaustive_parts"].append("a Save refused at EVERY board / line entry (payload of the other kind) of every forest of <= 3 entries, and a write error at "
+                                     "several byte positions of every forest of <= 2 entries, each followed by ordinary Saves of the same and of other users in the same process")
+    c.sample({"op": "history of saves", "case": l8[0], "result": o8[0][:200]})
+    lap("7 histories")
 
 
 if __name__ == "__main__":
